@@ -32,15 +32,22 @@ Definition trace_run (a : algo) (n : nat) (fixed : list nat) (budget : nat) (tol
   | Err => Err
   end.
 
-(* tucker(init=(core, fs), fixed_factors=fixed, n_iter_max=0): partial_tucker returns its init *)
+(* tucker(init=(core, fs), fixed_factors=fixed, n_iter_max=0): the whole-function model with partial_tucker's
+   zero-budget behaviour (returns its initialisation) *)
 Definition tucker_zero (core : tensor Z) (fs : list zmat) (fixed : list nat) : res (tensor Z * list zmat) :=
-  let fx := py_sorted fixed in
-  let fixedp := pick (fun i => memb i fx) 0 fs in
-  match tucker_fixed_lists fixed fs (fun _ free => free) with
+  tucker_fixed 0%Z Z.add Z.mul core fs fixed (@pt_zero Z).
+
+(* parafac2 initialisation with the recorded QR answer; the state as (weights, factors, projections) *)
+Definition p2_state (rank : nat) (init : p2init Z) (Q Rm : zmat) : res (list Z * list zmat * list zmat) :=
+  match p2_init 1%Z (fun _ => (Q, Rm)) rank init with
+  | Ok s => Ok (p2w s, p2f s, p2P s)
   | Err => Err
-  | Ok fs' => let c1 := Zmmd core (map snd fixedp) (map fst fixedp) in
-              Ok (ZmmdT c1 (map snd fixedp) (map fst fixedp), fs')
   end.
+Definition p2_state_dense (J : nat) (x : list Z * list zmat * list zmat) : tensor Z :=
+  let '(w, fs, P) := x in
+  Zp2_dense (length w) w (nth 0 fs []) (nth 1 fs []) (nth 2 fs []) P J.
+Definition p2_state_eqb (x y : list Z * list zmat * list zmat) : bool :=
+  let '(w, fs, P) := x in let '(w', fs', P') := y in z_list_eqb w w' && zmats_eqb fs fs' && zmats_eqb P P'.
 
 (* what byte comparison of successive budgets can establish: a factor that changed after sweep k WAS assigned in
    sweep k (so every observed change must be predicted), and in the first sweep, which starts from a generic
@@ -70,7 +77,14 @@ Inductive case :=
 (* tucker_to_tensor *)
 | CTuckerDense (id : nat) (core : tensor Z) (fs : list zmat) (dense : tensor Z)
 (* parafac2_to_tensor of a Parafac2Tensor (equal slice heights J) *)
-| CP2Dense (id : nat) (R : nat) (w : list Z) (A B C : zmat) (P : list zmat) (J : nat) (dense : tensor Z).
+| CP2Dense (id : nat) (R : nat) (w : list Z) (A B C : zmat) (P : list zmat) (J : nat) (dense : tensor Z)
+(* initialize_tucker(non_negative=True) as observed through non_negative_tucker(_hals)(n_iter_max=0) *)
+| CNtdInit (id : nat) (core : tensor Z) (fs : list zmat) (out_core : tensor Z) (out_fs : list zmat)
+(* parafac2(init=..., n_iter_max=0): rank asked for, the init, the recorded answer (Q, R) of qr(B) (unused for a
+   Parafac2Tensor init), the common slice height J, the returned (weights, factors, projections) or Err,
+   parafac2_to_tensor of the result and the dense tensor of the init (cp_to_tensor / parafac2_to_tensor) *)
+| CP2Init (id : nat) (rank : nat) (init : p2init Z) (Q Rm : zmat) (J : nat)
+          (observed : res (list Z * list zmat * list zmat)) (dense_out dense_init : tensor Z).
 
 Definition agree (c : case) : bool :=
   match c with
@@ -88,11 +102,20 @@ Definition agree (c : case) : bool :=
       res_eqb (fun x y => zt_eqb (fst x) (fst y) && zmats_eqb (snd x) (snd y)) (tucker_zero core fs fixed) out
   | CTuckerDense _ core fs dense => zt_eqb (Zmmd core fs (seq 0 (length fs))) dense
   | CP2Dense _ R w A B C P J dense => zt_eqb (Zp2_dense R w A B C P J) dense
+  | CNtdInit _ core fs out_core out_fs =>
+      let '(c, f) := tucker_init true Z.abs core fs in zt_eqb c out_core && zmats_eqb f out_fs
+  | CP2Init _ rank init Q Rm J observed dense_out dense_init =>
+      res_eqb p2_state_eqb (p2_state rank init Q Rm) observed &&
+      match p2_state rank init Q Rm with
+      | Ok x => zt_eqb (p2_state_dense J x) dense_out && zt_eqb dense_out dense_init
+      | Err => true
+      end
   end.
 
 Definition ident (c : case) : nat :=
   match c with
   | CInit i _ _ _ _ _ | CDense i _ _ _ _ | CTrace i _ _ _ _ _ _ _ | CTuckerLists i _ _ _
-  | CTuckerZero i _ _ _ _ | CTuckerDense i _ _ _ | CP2Dense i _ _ _ _ _ _ _ _ => i
+  | CTuckerZero i _ _ _ _ | CTuckerDense i _ _ _ | CP2Dense i _ _ _ _ _ _ _ _ | CNtdInit i _ _ _ _
+  | CP2Init i _ _ _ _ _ _ _ _ => i
   end.
 Definition failing := failing_ids agree ident.
